@@ -68,6 +68,21 @@ def gen_mask(rng, kind, H, W):
     return m
 
 
+def gen_big_kernel_case(rng, model, kshape, shape):
+    """A kernel window holding more than 255 jointly valid pixels (counts beyond 8 bits), small integer data."""
+    kh, kw = kshape
+    N = kh * kw
+    vmax = max(3, int(4095 / N) - 1)
+    H, W = shape
+    src = np.array([[rng.randint(1, vmax) for _ in range(W)] for _ in range(H)], dtype='float32')
+    g = rng.choice([1, 2])
+    ref = np.clip(np.round(g * src + np.array([[rng.randint(-1, 1) for _ in range(W)] for _ in range(H)])), 0, vmax).astype('float32')
+    if rng.random() < 0.5:
+        src[rng.randrange(H), rng.randrange(W)] = NAN
+    return dict(model=model, kshape=(kh, kw), find_r2=True, thresh=rng.choice([None, 0.25]) if model == 'gain-offset' else None,
+                src=src, ref=ref, mask_kind='big-kernel', style='random')
+
+
 def gen_case(rng, maxdim=14, exact=True):
     """One structured block pair.  Integer data with max|v|^2 * N^2 < 2^24 (every float32 box sum and product exact)."""
     model = rng.choice(MODELS)
